@@ -253,10 +253,10 @@ def decodeHereS (decS : DecS σ μ) (cfg : Cfg μ) (rest : Bytes) (st : σ) : Ex
       match p mi with
       | .error e => (.error e, st1)
       | .ok matched =>
-        if matched && !cfg.infoOnly then
+        if (matched || cfg.tableDef mi) && !cfg.infoOnly then
           match decS st1 false rest with
           | (.error e, st2) => (.error e, st2)
-          | (.ok m, st2) => (.ok (true, m), st2)
+          | (.ok m, st2) => (.ok (matched, m), st2)
         else (.ok (matched, mi), st1)
 
 def tryBodyS (decS : DecS σ μ) (cfg : Cfg μ) (rest : Bytes) (st : σ) :
@@ -328,7 +328,7 @@ theorem decodeHereS_spec (hr : Refines decS dec Inv) (cfg : Cfg μ) (rest : Byte
       | error e => exact ⟨by first | rfl | trivial, h2⟩
       | ok matched =>
         simp only
-        by_cases hm : (matched && !cfg.infoOnly) = true
+        by_cases hm : ((matched || cfg.tableDef mi) && !cfg.infoOnly) = true
         · simp only [hm, if_true]
           obtain ⟨h3, h4⟩ := hr st1 false rest h2
           rw [← h3]
